@@ -16,7 +16,7 @@ def dTok (j : Json) : Except String Tok :=
 
 def run (op : String) (a : Json) : Option (Except String Json) :=
   match op with
-  | "fault.document" => some do
+  | "fault.document" | "fault.document.lxml" => some do
       let Γ ← dCtx (field a "ctx")
       let tok ← dTok (field a "tok")
       let c ← dStr (field a "clazz")
